@@ -17,7 +17,9 @@ GRAPH_CLASSES = ("Subgraph", "KNNSubgraph")
 def inline_private_model_helpers(fi: FunctionInfo) -> bool:
     """Private helpers of the model classes are inlined so that an extract-method refactor
     does not lose the anchor; public entry points and graph/heap methods are summarised."""
-    return fi.cls in MODEL_CLASSES and fi.name.startswith("_") and not fi.name.startswith("__")
+    if not fi.name.startswith("_") or fi.name.startswith("__"):
+        return False
+    return fi.cls in MODEL_CLASSES or (fi.cls is None and fi.module.startswith("opfython.models"))
 
 
 def model_walk(repo: Repo, cls: str, method: str) -> Walker:
